@@ -65,6 +65,7 @@ func graftCapturedBracket(g *gram.Grammar, k int) {
 	in.Style = 1
 	p := g.Prods[(k/8)%len(g.Prods)]
 	c := gram.Cap(in)
+	c.T = "bare" // rendered `@{ x }`, not `@( { x } )`
 	c.Field = len(p.Fields)
 	p.Fields = append(p.Fields, gram.Field{Kind: gram.FStrs, Prod: -1, Uni: -1})
 	o := gram.Group([]string{"?", "!"}[(k/2)%2], c)
